@@ -202,7 +202,7 @@ fn c13(tc: &Toolchain, tier: &str, tag: &str, seed: u64, thorough: bool, root: &
                 continue;
             }
             // the macro-misuse probes are expected to die in macro expansion ("no rules expected ...")
-            let macro_probe = class.contains("field!") || class.contains("unlock!");
+            let macro_probe = class.contains("field!") || class.contains("unlock!") || class.contains("dyn_collect!");
             if generator_fault(&checked[i].stderr) && !macro_probe {
                 eprintln!("gcverif: probe generator fault (cannot decide): {class}: {}", checked[i].stderr.lines().take(5).collect::<Vec<_>>().join(" | "));
                 code = code.max(2);
